@@ -20,6 +20,11 @@ def one_history(rng, shrink_grow=False, spec_safe=False):
     if rng.random() < 0.9:
         ops.append(W(dims))
     cur = list(dims)
+    wext = list(dims)           # extents the chunk index describes: those of the last full write (creation: no chunk at all)
+    # shrunk[k]: dimension k has been below wext[k] since the last full write.  Growing it again is then outside
+    # chain_covers (Props/C13.v C13_read_after_resizes; C13_read_after_resizes_tight: stale data for some content) =
+    # KNOWN-FINDING C13-shrink-then-grow.  Shrinking that stays at or above wext[k] loses nothing the index holds, so
+    # growing afterwards is inside the theorem and is generated.
     shrunk = [False] * rank
     for _ in range(rng.choice([1, 2, 4, 8, 12])):
         r = rng.random()
@@ -37,10 +42,11 @@ def one_history(rng, shrink_grow=False, spec_safe=False):
                 hi = c
             nd.append(rng.choice([1, c, rng.randint(1, max(1, hi)), max(1, hi)]))
         ops.append({"op": "resize", "path": "/r", "dims": nd})
-        shrunk = [s or (b < a) for s, a, b in zip(shrunk, cur, nd)]
+        shrunk = [s or (b < w) for s, w, b in zip(shrunk, wext, nd)]
         cur = nd
         if rng.random() < 0.45:
             ops.append(W(cur))
+            wext = list(cur)
             shrunk = [False] * rank
         if rng.random() < 0.2:
             ops.append({"op": "setattr", "path": "/r", "name": "6e", "kind": "i32", "val": "07000000"})
@@ -62,5 +68,7 @@ def run(ctx):
     return histcheck.run(ctx, cases_for(ctx.rng, ctx.tier), "C13", tags={"data", "must-fail-accepted", "must-succeed-refused"},
                          known=KNOWN, unit_modules=["c01unit"],
                          rule_extra="C13 cases: grow/shrink/rewrite sequences (1..12 resizes) over ranks 1-3, chunk shapes, fixed and unlimited "
-                                    "maxima, requests beyond the maximum; growing a dimension again after shrinking it without a full rewrite is "
-                                    "excluded from gating (KNOWN-FINDING C13-shrink-then-grow) and re-confirmed separately.")
+                                    "maxima, requests beyond the maximum; the resize chains generated are exactly those inside chain_covers (theorem "
+                                    "C13_read_after_resizes): growing a dimension again after it was shrunk BELOW the extent of the last full write, "
+                                    "without a rewrite, is excluded from gating (KNOWN-FINDING C13-shrink-then-grow, C13_read_after_resizes_tight) "
+                                    "and re-confirmed separately.")
